@@ -80,6 +80,57 @@ theorem JRel.cases {j : JM ℝ} {c : M (ℝ × Slot)} {s : Slot} (h : JRel j c s
     | overwrite => exact h.elim
     | fuel => exact h.elim
 
+
+/-! ## the intermediate relation: an `IllegalArgumentException` where C fails, whatever its text
+
+The jump-factor family (`Jump_from_L1/L2/L3` and its callers `CS_FluorShell`, `CS_FluorLine`, …) reports some failures with another
+message text than C (e.g. Java's throwing `EdgeEnergy(Z, L1_SHELL)` says "Invalid shell for this atomic number" where C says "The excitation
+energy too low to excite the shell").  `JRelI` compares everything `JRel` compares **except the message text**; unlike `JRelW` it still
+demands an `IllegalArgumentException`, which is what `catch (IllegalArgumentException e)` in the callers needs. -/
+def JRelI (j : JM ℝ) (c : M (ℝ × Slot)) (s : Slot) : Prop :=
+  match c with
+  | .ok (v, s') => (s' = s ∧ j = .ok v) ∨ (∃ e : Err, v = 0 ∧ s' = s.withErr e ∧ ∃ m : String, j = .error (.iae m))
+  | .error a => JStopRel j a
+
+theorem JRel.toI {j : JM ℝ} {c : M (ℝ × Slot)} {s : Slot} (h : JRel j c s) : JRelI j c s := by
+  unfold JRel at h; unfold JRelI
+  split
+  · rcases h with h | ⟨e, h1, h2, h3⟩
+    · exact Or.inl h
+    · exact Or.inr ⟨e, h1, h2, _, h3⟩
+  · exact h
+
+theorem JRelI.toW {j : JM ℝ} {c : M (ℝ × Slot)} {s : Slot} (h : JRelI j c s) : JRelW j c s := by
+  unfold JRelI at h; unfold JRelW
+  split
+  · rcases h with h | ⟨e, h1, h2, m, h3⟩
+    · exact Or.inl h
+    · exact Or.inr ⟨e, h1, h2, _, rfl, h3⟩
+  · exact h
+
+theorem JRelI.value {v : ℝ} {s : Slot} : JRelI (.ok v) (.ok (v, s)) s := Or.inl ⟨rfl, rfl⟩
+theorem JRelI.fail {s : Slot} {c : ErrCode} {m m' : String} :
+    JRelI (.error (.iae m')) (.ok ((0 : ℝ), s.withErr ⟨c, m⟩)) s := Or.inr ⟨⟨c, m⟩, rfl, rfl, m', rfl⟩
+theorem JRelI.fail_e {s : Slot} {e : Err} {m' : String} : JRelI (.error (.iae m')) (.ok ((0 : ℝ), s.withErr e)) s :=
+  Or.inr ⟨e, rfl, rfl, m', rfl⟩
+theorem JRelI.nf {a b : String} {s : Slot} : JRelI (.error (.nf a)) (.error (.nf b)) s := ⟨a, rfl⟩
+theorem JRelI.ub {j : JM ℝ} {b : String} {s : Slot} : JRelI j (.error (.ub b)) s := trivial
+
+theorem JRelI.cases {j : JM ℝ} {c : M (ℝ × Slot)} {s : Slot} (h : JRelI j c s) :
+    (∃ v, c = .ok (v, s) ∧ j = .ok v) ∨ (∃ (e : Err) (m : String), c = .ok ((0 : ℝ), s.withErr e) ∧ j = .error (.iae m)) ∨
+    (∃ a b, c = .error (.nf a) ∧ j = .error (.nf b)) ∨ (∃ a, c = .error (.ub a)) := by
+  unfold JRelI at h
+  split at h
+  · rcases h with ⟨h1, h2⟩ | ⟨e, h1, h2, m, h3⟩
+    · subst h1; exact Or.inl ⟨_, rfl, h2⟩
+    · subst h1 h2; exact Or.inr (Or.inl ⟨e, m, rfl, h3⟩)
+  · rename_i a
+    cases a with
+    | nf w => obtain ⟨w', h⟩ := h; exact Or.inr (Or.inr (Or.inl ⟨_, w', rfl, h⟩))
+    | ub w => exact Or.inr (Or.inr (Or.inr ⟨_, rfl⟩))
+    | overwrite => exact h.elim
+    | fuel => exact h.elim
+
 /-! ## reads -/
 
 @[simp] theorem jrd_some {β : Type} (name : String) (v : Vec β) (i : Int) :
